@@ -285,7 +285,7 @@ def model_findings(run):
          "two Template objects for the same URI: when the later one is garbage collected Template.code of the surviving one raises KeyError"),
     ]
     for name, srcs, mu, mf, coll, inv, sig, what in cases:
-        res = run.tlc("MC_Paths", mc_cfg(srcs, mu, mf, 3, 0, coll, 6, [inv]), name="mc-" + name, workers=2)
+        res = run.tlc("MC_Paths", mc_cfg(srcs, mu, mf, 3, 0, coll, 6, [inv]), name="mc-" + name, workers=2, heap="2g")
         if not res.violated:
             continue
         if res.violated != [inv]:
@@ -413,6 +413,10 @@ SUPPORT = {
     "nsc.html": "".join("<%%def name=\"%s()\">C.%s </%%def>" % (n, n) for n in ("tri", "lab3")),
 }
 # the page fragment changes what `a` means for the body: kept out of combinations with def-reference segments
+DEGENERATE = {"empty": "", "one_char": "x", "one_newline": "\n", "one_nonascii": "\u00e9", "only_comment": "## nothing but a comment\n",
+              "only_doc": "<%doc>nothing but a doc section</%doc>", "only_modblock": "<%! ONLY = 1 %>", "only_def": "<%def name=\"only()\">D${a}</%def>",
+              "only_expr": "${a}", "only_control": "% if a:\n% endif\n", "no_trailing_newline": "line one\nline two",
+              "trailing_newline": "line one\nline two\n", "only_crlf": "\r\n", "only_spaces": "   "}
 EXCLUSIVE = {"page", "uri_print", "page_loop", "page_filter"}
 
 
@@ -435,8 +439,17 @@ def make_corpus(run, n_random):
         corpus.append({"id": len(corpus) + 1, "tags": list(tags), "inherit": inherit or "", "encoding": encoding, "text": comment + body,
                        "refs": bool(inherit or REFS & set(tags)), "urisens": "uri_print" in tags, "vec": vec,
                        "defs": defs, "marker": "TPL%03d" % (len(corpus) + 1)})
+    def add_raw(name, text, vec="default", encoding="utf-8"):
+        # degenerate templates, exactly as given (no marker line): every path and every observation must cope
+        corpus.append({"id": len(corpus) + 1, "tags": ["degenerate_" + name], "inherit": "", "encoding": encoding, "text": text, "raw": True,
+                       "refs": False, "urisens": False, "vec": vec, "defs": [], "marker": "TPL%03d" % (len(corpus) + 1)})
     encs = ["utf-8", "cp1251", "latin-1"]
     vecs = [v for v in VECTORS if v != "default"]
+    for name, text in DEGENERATE.items():
+        add_raw(name, text)
+    add_raw("empty", "", "strict")
+    add_raw("one_newline", "\n", "filters")
+    add_raw("only_comment", "## -*- coding: cp1251 -*-\n", "default", "cp1251")
     for i, t in enumerate(sorted(FRAGS)):               # unit templates: one per feature, under the default options ...
         add([t], "", encs[i % 3] if t not in ("text",) else "utf-8")
     for i, t in enumerate(sorted(FRAGS)):               # ... and under one other option vector (all vectors occur)
@@ -569,7 +582,8 @@ def realise(tpl, d, seed, first):
         ev.append({"ev": "source", "t": n, "dig": _d(s), "seed": seed, "path": path})
         c = _try(lambda: t.code)
         if isinstance(c, str) and not c.startswith("exc:"):
-            owner = "m" if tpl["marker"] in c else "other"
+            # whose module it is: the template's marker text is in it (degenerate templates carry none: a trace has one source)
+            owner = "m" if tpl.get("raw") or tpl["marker"] in c else "other"
             try:
                 compile(c, "<code>", "exec")
                 toks = set(re.findall(r"[^\x00-\x7f]+", text))
@@ -583,8 +597,11 @@ def realise(tpl, d, seed, first):
         if light:
             return
         names = [x[0] for x in tpl["defs"]]
-        dd = _try(lambda: json.dumps([t.list_defs(), [t.has_def(x) for x in names + ["nonexistent_def"]],
-                                      [type(t.get_def(x)).__name__ for x in names]]))
+        dd = _try(lambda: json.dumps([t.list_defs(), [t.has_def(x) for x in names + ["nonexistent_def", "body"]],
+                                      [type(t.get_def(x)).__name__ for x in names],
+                                      # attributes of the module that do not name the path it came by
+                                      [getattr(t.module, "_source_encoding", "?"), getattr(t.module, "_enable_loop", "?"),
+                                       getattr(t.module, "_magic_number", "?"), callable(getattr(t.module, "render_body", None))]]))
         ev.append({"ev": "defs", "t": n, "dig": _d(dd), "seed": seed, "path": path})
 
     SP = {"p": "main.html", "s": "/main.html", "d": "./main.html"}
@@ -614,6 +631,10 @@ def realise(tpl, d, seed, first):
     t = None if bare else construct("file", "fn", lambda: Template(filename=fn, lookup=lk, **topts))
     if t is not None:
         queries(t, "file/fn")
+    # a text given together with the name of an existing file whose content is DIFFERENT: the text is the template
+    t = None if bare else construct("string", "anon", lambda: Template(text, filename=os.path.join(d["src"], "decoy.html"), lookup=lk, **topts))
+    if t is not None:
+        queries(t, "string/with-filename", light=True)
     # 3./4. module files: generated by the first process under one spelling, re-loaded under the others and by every
     #    later process; in a second module directory the spellings come in the opposite order; a third lookup names
     #    its module files with a modulename_callable keyed by the file
@@ -770,7 +791,7 @@ def record_corpus(run, corpus, nproc, seeds):
         enc = tpl["encoding"]
         with open(os.path.join(d["src"], "main.html"), "wb") as f:
             f.write(tpl["text"].encode(enc))
-        for name, text in SUPPORT.items():
+        for name, text in list(SUPPORT.items()) + [("decoy.html", "DECOY ${a} -- another template's file\n")]:
             with open(os.path.join(d["src"], name), "w", encoding="utf-8") as f:
                 f.write(text)
         for name in os.listdir(d["src"]):
@@ -860,7 +881,7 @@ def check(run):
     for name, srcs, mu, mf, maxobj, maxep, coll, depth in [
             ("mc-distinct", ["s3", "s4"], "MU_distinct", "MF_distinct", 3, 1, False, 5 if not thorough else 7),
             ("mc-distinct-1src", ["s3"], "MU_distinct", "MF_distinct", 4, 1, False, 6 if not thorough else 8)]:
-        res = run.tlc("MC_Paths", mc_cfg(srcs, mu, mf, maxobj, maxep, coll, depth, ALL_INV), name=name, coverage=(name == "mc-distinct"), workers=workers, timeout=1500)
+        res = run.tlc("MC_Paths", mc_cfg(srcs, mu, mf, maxobj, maxep, coll, depth, ALL_INV), name=name, coverage=(name == "mc-distinct"), workers=workers, timeout=1500, heap="3g")
         if res.violated:
             run.spec_violation(res)
         for a, (dd, g) in res.coverage.items():
@@ -871,7 +892,7 @@ def check(run):
     run.extra["action_coverage"] = acts
     # with collisions / collection the property invariants that do not go through the registry still hold
     res = run.tlc("MC_Paths", mc_cfg(["s1", "s2", "s3"], "MU_mixed", "MF_mixed", 3, 1, True, 5 if not thorough else 6,
-                                     ["PathIndependence", "DefsAgree", "ModuleFileReused", "RegistryWeak"], namings=("uri", "ruri1", "fn", "anon") if not thorough else ("uri", "uri2", "ruri1", "curi", "fn", "anon")), name="mc-mixed", workers=workers, timeout=1500)
+                                     ["PathIndependence", "DefsAgree", "ModuleFileReused", "RegistryWeak"], namings=("uri", "ruri1", "fn", "anon") if not thorough else ("uri", "uri2", "ruri1", "curi", "fn", "anon")), name="mc-mixed", workers=workers, timeout=1500, heap="3g")
     if res.violated:
         run.spec_violation(res)
     model_findings(run)
@@ -880,7 +901,7 @@ def check(run):
     nsim = 60 if not thorough else 500
     simdir = run.subdir("sim")
     cfg = mc_cfg(["s1", "s2", "s3"], "MU_mixed", "MF_mixed", 10, 100000, True, 100000, ["RegistryWeak"], namings=ALL_NAMINGS).replace("CONSTRAINT Bound\n", "")
-    run.tlc("MC_Paths", cfg, name="sim", workers=1, simulate="file=%s/tr,num=%d" % (simdir, nsim), depth=24, timeout=900, count=False)
+    run.tlc("MC_Paths", cfg, name="sim", workers=1, simulate="file=%s/tr,num=%d" % (simdir, nsim), depth=24, timeout=900, count=False, heap="2g")
     files = sorted(os.listdir(simdir))
     if len(files) < nsim:
         raise MachineryError("simulate produced %d of %d behaviours" % (len(files), nsim))
@@ -914,7 +935,7 @@ def check(run):
         raise MachineryError("no simulated behaviour contained a source query")
 
     # ------------------------------------------------------------------ 3. V: corpus on the eight paths x hash seeds
-    corpus = make_corpus(run, 36 if not thorough else 500)
+    corpus = make_corpus(run, 24 if not thorough else 500)
     seeds = choose_seeds(run)
     traces = record_corpus(run, corpus, nproc, seeds)
     by_id = {t["id"]: t for t in corpus}
